@@ -118,6 +118,8 @@ impl<W, R, T> Runtime<W, R, T> {
         if let Some(size_limit) = self.limits.size_limit {
             if let Some(size) = f() {
                 let stat = self.stats.borrow();
+                #[cfg(xray_verif)]
+                crate::verif::on_canalloc(size, stat.size.0, size_limit);
                 if usize::from(stat.size) + size > size_limit {
                     return Err(RuntimeViolation::AllocationLimitReached);
                 }
